@@ -617,6 +617,7 @@ def c07_4(ctx: Ctx) -> RuleResult:
 
     nograd_atom = f"self._method in {nograd_q}"
     persistent = (nograd_q, "speculative", "split_evaluations")
+    evaluator_combines = _evaluator_combines(ctx)
     seen: dict = {}
     work = []
     for s0 in initial_states():
@@ -690,6 +691,14 @@ def c07_4(ctx: Ctx) -> RuleResult:
                             violations.setdefault("c", (e, "functions already known for this point are evaluated again", ctxt, s_out.events))
                         if rg and got_g:
                             violations.setdefault("c", (e, "gradients already known for this point are evaluated again", ctxt, s_out.events))
+                        # (e) split evaluations: the ensemble evaluator computes the functions in the *same* evaluation when it is
+                        # asked for a gradient at a point it has no functions for (premise checked below): a gradient-only request
+                        # must therefore follow a function evaluation at this point
+                        # (a run in which the flag was never read behaves the same for both of its values: it stands for split=True too)
+                        if split is not False and evaluator_combines and rg and not rf and not got_f:
+                            violations.setdefault("e", (e, "with split_evaluations a gradient is requested at a point whose functions were never evaluated: the ensemble "
+                                                        "evaluator then computes functions and gradients in one evaluation (one batch with unperturbed and perturbed rows)",
+                                                        ctxt, s_out.events))
                         got_f, got_g = got_f or rf, got_g or rg
                     # (d) the answer is the value at this point
                     bad = _bad_tags(val, p, kind if not uses_nc else None)
@@ -711,7 +720,11 @@ def c07_4(ctx: Ctx) -> RuleResult:
         "b": "with split_evaluations no single evaluation computes both functions and gradients",
         "c": "a quantity already computed for the current point is never evaluated again, and evaluations happen at the requested point",
         "d": "every returned value is the value at the requested point (never None, a placeholder, or a stale value)",
+        "e": "with split_evaluations a gradient is only requested at a point whose functions have been evaluated (separately)",
     }
+    if not evaluator_combines:
+        labels.pop("e")
+        res.notes.append("clause (e) not armed: EnsembleEvaluator.calculate has no combined computation for a gradient-only request")
     for k, text in labels.items():
         if k in violations:
             e, why, ctxt, events = violations[k]
@@ -726,6 +739,35 @@ def c07_4(ctx: Ctx) -> RuleResult:
     res.notes.append(f"{len(seen)} reachable abstract states, {n_trans} transitions, {len(reqs)} callables x 2 points; samples: {samples[:3]}")
     res.floor = 4
     return res
+
+
+def _evaluator_combines(ctx: Ctx) -> bool:
+    """Premise of clause (e): `EnsembleEvaluator.calculate` answers a gradient-only request for which it holds no cached
+    function values by a computation other than the cached-gradient one - i.e. there is a computation that is reached
+    without `compute_functions` being true and without the cache test having succeeded."""
+    from ..util import bool_nnf, path_condition, stmt_of
+
+    calc = ctx.repo.funcs.get("ropt.ensemble_evaluator._ensemble_evaluator.EnsembleEvaluator.calculate")
+    if calc is None:
+        raise AnalysisError("EnsembleEvaluator.calculate not found")
+    sites = []
+    for call, cs, _k in ctx.cg.all_callees(calc):
+        if not any(g.cls is calc.cls for g in cs):
+            continue
+        st = stmt_of(call)
+        if not isinstance(st, ast.Return):
+            continue
+        pc = path_condition(ctx, calc, st)
+        lits = []
+        if pc:
+            g_ = bool_nnf(("bool", "and", tuple(c_ if p_ else ("unary", "not", c_) for c_, p_ in pc)))
+            lits = [(it[1], it[2]) for it in (g_[1] if g_[0] == "and" else [g_]) if it[0] == "lit"]
+        needs_functions = any(a == ("param", calc.qualname, "compute_functions") and pol for a, pol in lits)
+        cache_hit = any(pol is False and a[0] == "cmp" and a[1] == "is" and a[3] == ("const", None) and a[2][0] == "attr" for a, pol in lits)
+        sites.append((needs_functions, cache_hit))
+    if not sites:
+        raise AnalysisError("EnsembleEvaluator.calculate: no computation sites found")
+    return any(not nf and not ch for nf, ch in sites)
 
 
 def _valid_for(st: State, A: Anchors, p: str, kind: str) -> bool:
